@@ -6960,6 +6960,8 @@ class Rect(Shape):
             self.rx = self.rx.value(relative_length=width, **kwargs)
         if isinstance(self.ry, Length):
             self.ry = self.ry.value(relative_length=height, **kwargs)
+        # Lengths are numbers now: the corner radii can be clamped to half the resolved size.
+        self._validate_rect()
         return self
 
     def is_degenerate(self):
